@@ -147,9 +147,9 @@ Ltac crush_alloc :=
          | |- context [if ?x then _ else _] => destruct x
          end; reflexivity.
 
-Lemma pe_step_no_alloc chk pe address first rg m : alloc (snd (pe_step chk pe address first rg m)) = false.
+Lemma pe_step_raw_no_alloc chk pe address first rg m : alloc (snd (pe_step_raw chk pe address first rg m)) = false.
 Proof.
-  unfold pe_step.
+  unfold pe_step_raw.
   destruct (pe_lookup (pe_funcs pe) address None) as [f|]; [|reflexivity].
   destruct (ui_at (pe_uinfos pe) (rt_uinfo f)) as [u0| |]; try reflexivity.
   match goal with |- alloc (snd (match ?e with Some r => r | None => ?k end)) = false =>
@@ -172,6 +172,9 @@ Proof.
     + intros H; inversion H; reflexivity.
     + destruct (run_epilog chk u0 insns rg m); intros H; inversion H; reflexivity.
 Qed.
+
+Lemma pe_step_no_alloc chk pe address first rg m : alloc (snd (pe_step chk pe address first rg m)) = false.
+Proof. unfold pe_step. cbn [snd]. apply pe_step_raw_no_alloc. Qed.
 
 Lemma cb_x86_no_alloc md first rel rg m : alloc (snd (cb_x86 md first rel rg m)) = false.
 Proof.
